@@ -247,6 +247,8 @@ impl GenericsAnalyzer {
                             self.trait_generics.where_predicates.push(predicate.clone());
                         }
                     },
+                    // lifetime parameters (and the relations between them) stay on the method
+                    syn::WherePredicate::Lifetime(_) => {}
                     _ => {
                         self.trait_generics.where_predicates.push(predicate.clone());
                     }
@@ -279,7 +281,10 @@ impl GenericsAnalyzer {
 
         if let Some(where_clause) = &generics.where_clause {
             for predicate in &where_clause.predicates {
-                self.trait_generics.where_predicates.push(predicate.clone());
+                // lifetime parameters (and the relations between them) stay on the method
+                if !matches!(predicate, syn::WherePredicate::Lifetime(_)) {
+                    self.trait_generics.where_predicates.push(predicate.clone());
+                }
             }
         }
 
